@@ -11,7 +11,7 @@ import est_common as ec
 
 PROP_FILE = 'theories/Properties/C01.v'
 MODEL_FILES = ['theories/Base/Rows.v', 'theories/Model/Estimators.v']
-GEN_GROUPS = ['weights', 'aipw', 'gfmarg']
+GEN_GROUPS = ['weights', 'aipw', 'gfmarg', 'drest']
 RULE = ('random categorical frames: 1-3 covariates of arity 2-4, every stratum contains both arms (and both outcome '
         'values per cell for binary outcomes), outcome binary / normal (2 dp) / Poisson; every estimator with models '
         'saturated in the covariates; IPTW under stabilised/unstabilised x population/exposed/unexposed, g-formula under '
